@@ -241,8 +241,20 @@ fn paid_work(rep: &mut Report, p: &Params) {
         let net = *r.pick(&[NetID::Custom02, NetID::Mainnet, NetID::Testnet]);
         let (n1, n2) = *r.pick(&[(100u16, 1u16), (10_000, 1), (65_535, 1), (300, 300), (1000, 700), (65_535, 20)]);
         // Loop(n1, 3){ Loop(n2, 1){ Noop } Noop }  PushI(1)
-        let ops = vec![Op::Loop(n1, 3), Op::Loop(n2, 1), Op::Noop, Op::Noop, pushi(1)];
+        // one probe in three carries weight that no fee can cover: nine nested loops (their weight exceeds 2^128) that are
+        // jumped over, in the spent coin's own covenant or in a second, unused covenant listed before it
+        let variant = r.below(3);
+        let nest = nested_loops(9, 65_535, &[Op::Noop]);
+        let ops = if variant == 1 {
+            let mut v = vec![Op::Jmp(nest.len() as u16)];
+            v.extend(nest.iter().cloned());
+            v.extend([Op::Loop(n1, 1), Op::Noop, pushi(1)]);
+            v
+        } else {
+            vec![Op::Loop(n1, 3), Op::Loop(n2, 1), Op::Noop, Op::Noop, pushi(1)]
+        };
         let bytes = refvm::encode(&ops).unwrap();
+        let unused: Option<Vec<u8>> = if variant == 2 { Some(refvm::encode(&nest).unwrap()) } else { None };
         let cov_weight = refvm::weight(&ops);
         let id = CoinID { txhash: TxHash(tmelcrypt::hash_keyed(b"c11paid", (p.shard_seed() ^ i).to_be_bytes())), index: 0 };
         let value: u128 = 1 << 100;
@@ -260,12 +272,18 @@ fn paid_work(rep: &mut Report, p: &Params) {
             inputs: vec![id],
             outputs: vec![CoinData { covhash: crate::gen::destroy_addr(), value: CoinValue(value - fee), denom: Denom::Mel, additional_data: Bytes::new() }],
             fee: CoinValue(fee),
-            covenants: vec![Bytes::from(bytes.clone())],
+            covenants: unused.iter().map(|u| Bytes::from(u.clone())).chain(std::iter::once(Bytes::from(bytes.clone()))).collect(),
             data: data.clone(),
             sigs: vec![],
         };
         let min = crate::model::big_to_u128_sat(&crate::model::ref_min_fee(&mk(0), mult));
-        for (fee, cls) in [(0u128, "fee=0"), (min / 2, "fee=min/2"), (min.saturating_sub(1), "fee=min-1"), (min, "fee=min"), (min + 5, "fee=min+5")] {
+        let fees: Vec<(u128, &str)> = if min <= value / 2 {
+            vec![(0u128, "fee=0"), (min / 2, "fee=min/2"), (min.saturating_sub(1), "fee=min-1"), (min, "fee=min"), (min + 5, "fee=min+5")]
+        } else {
+            rep.count("paid-work probes listing a covenant whose weight no fee can cover");
+            vec![(0u128, "fee=0,unpayable-weight"), (2000, "fee=2000,unpayable-weight"), (value / 2, "fee=half-the-coin,unpayable-weight")]
+        };
+        for (fee, cls) in fees {
             let tx = mk(fee);
             let mut s2 = st.clone();
             let before = melvm::opcode::verif::steps_executed();
